@@ -260,4 +260,147 @@ func runC19(c *eng.Ctx) {
 		}
 	}
 	c.Expect("GUARD-expired-skipped", 2)
+
+	// (5) REFILL: a page shortened by skipped entries (expired, pattern misses) is refilled until nothing is
+	// missing: the refill call sits in a loop, resumes behind the previous cursor (exclusive), asks for the
+	// missing count, and its own count of skipped entries feeds the loop condition
+	for _, spec := range []struct{ fn, callee string }{
+		{"(*Filer).doListValidEntries", "filer.Filer).doListDirectoryEntries"},
+		{"(*Filer).StreamListDirectoryEntries", "filer.Filer).doListPatternMatchedEntries"},
+	} {
+		fn := c.NeedFunc("weed/filer", spec.fn)
+		if fn == nil {
+			continue
+		}
+		calls := eng.Find(fn, eng.PlainCallTo(spec.callee))
+		var first, refill *ssa.Call
+		for _, in := range calls {
+			if len(eng.CycleOf(in.Block())) > 0 {
+				refill = in.(*ssa.Call)
+			} else {
+				first = in.(*ssa.Call)
+			}
+		}
+		if first == nil || refill == nil || len(calls) != 2 {
+			c.Ob("REFILL-page", eng.FuncName(fn)+" refill-loop", false, fn.Pos(), "the page is refilled in a loop until no skipped entry is left to replace (one listing outside, one inside a loop expected)")
+			continue
+		}
+		c.Ob("REFILL-page", eng.FuncName(fn)+" refill-loop", true, refill.Pos(), "the page is refilled in a loop until no skipped entry is left to replace")
+		cyc := eng.CycleOf(refill.Block())
+		// the loop continues while the count (of the first call or of the previous refill) is positive
+		countOf := func(call *ssa.Call) ssa.Value { return eng.ResultOf(call, 0) }
+		okCond := false
+		var countPhi ssa.Value
+		for b := range cyc {
+			iff, isIf := b.Instrs[len(b.Instrs)-1].(*ssa.If)
+			if !isIf {
+				continue
+			}
+			bo, isB := iff.Cond.(*ssa.BinOp)
+			if !isB || bo.Op != token.GTR || !isZero(bo.Y) {
+				continue
+			}
+			vals := eng.Resolve(bo.X)
+			hasFirst, hasRefill := false, false
+			for _, v := range vals {
+				if v == countOf(first) {
+					hasFirst = true
+				}
+				if v == countOf(refill) {
+					hasRefill = true
+				}
+			}
+			if hasFirst && hasRefill {
+				okCond = true
+				countPhi = bo.X
+			}
+		}
+		c.Ob("REFILL-page", eng.FuncName(fn)+" loop-tests-refill-count", okCond, refill.Pos(), "the entries skipped by a refill are themselves refilled (the loop condition tests the count returned by the refill)")
+		sig := refill.Call.Signature()
+		ci := cursorParamIndex(sig)
+		okArgs := ci >= 0
+		if okArgs {
+			// cursor = the last name returned so far, exclusive, limit = missing count
+			off := 0
+			if refill.Call.IsInvoke() == false && sig.Recv() != nil {
+				off = 1
+			}
+			cur := refill.Call.Args[ci+off]
+			incl := refill.Call.Args[ci+off+1]
+			lim := refill.Call.Args[ci+off+2]
+			curOK := false
+			for _, v := range eng.Resolve(cur) {
+				if v == eng.ResultOf(first, 1) || v == eng.ResultOf(refill, 1) {
+					curOK = true
+				}
+				if eng.IsParamLike(v, "startFileName") {
+					curOK = false
+					break
+				}
+			}
+			b, isConst := eng.ConstBool(incl)
+			okArgs = curOK && isConst && !b && countPhi != nil && eng.SameExpr(lim, countPhi)
+		}
+		c.Ob("REFILL-page", eng.FuncName(fn)+" resumes-behind-cursor", okArgs, refill.Pos(), "a refill resumes behind the last name seen (exclusive) and asks for exactly the missing number of entries")
+	}
+	c.Expect("REFILL-page", 6)
+
+	// (6) the generic prefix filter: the limit is tested between any two deliveries, and when it stops at the
+	// limit inside a store batch the returned cursor is the last delivered name
+	if fn := c.NeedFunc("weed/filer", "(*FilerStoreWrapper).prefixFilterEntries"); fn != nil {
+		var cbs []ssa.Instruction
+		for _, in := range eng.Find(fn, func(in ssa.Instruction) bool { cl, ok := in.(*ssa.Call); return ok && eng.IsParam(cl.Call.Value, "eachEntryFunc") }) {
+			if len(eng.CycleOf(in.Block())) > 0 {
+				cbs = append(cbs, in)
+			}
+		}
+		notExhausted := func(cond ssa.Value) (bool, bool) {
+			bo, ok := cond.(*ssa.BinOp)
+			if !ok || !eng.IsParam(bo.Y, "limit") || eng.IsParam(bo.X, "limit") {
+				return false, false
+			}
+			switch bo.Op {
+			case token.LSS:
+				return true, true
+			case token.GEQ:
+				return true, false
+			}
+			return false, false
+		}
+		goOn := eng.PassEdges(fn, notExhausted)
+		stop := eng.FailEdges(fn, notExhausted)
+		if len(cbs) != 1 || len(goOn) == 0 {
+			c.Undecided("LIMIT-filter", eng.FuncName(fn), fn.Pos(), "delivery / limit test not found")
+		} else {
+			hit, _ := eng.Search(eng.After(cbs[0]), eng.Is(cbs[0]), eng.SearchOpt{Cut: goOn})
+			c.Ob("LIMIT-filter", eng.FuncName(fn)+" limit-tested-between-deliveries", hit == nil, cbs[0].Pos(), "after each delivered entry the limit is tested before the next one is delivered")
+			// cursor: on the exhausted edge inside the batch loop, the returned name is the delivered entry's
+			okCur := false
+			nInner := 0
+			for e := range stop {
+				iff := e.B.Instrs[len(e.B.Instrs)-1]
+				if !cbs[0].Block().Dominates(e.B) {
+					continue // the test of the outer loop, before any delivery of this batch
+				}
+				// only the test that directly follows a delivery (inside the batch loop)
+				if h, _ := eng.Search(eng.After(cbs[0]), eng.Is(iff), eng.SearchOpt{Cut: eng.MergeEdges(goOn, stop)}); h == nil {
+					continue
+				}
+				nInner++
+				okCur = true
+				for _, r := range eng.Find(fn, eng.IsReturn) {
+					if h, _ := eng.Search(eng.Loc{B: e.B.Succs[e.I]}, eng.Is(r), eng.SearchOpt{Cut: goOn}); h == nil {
+						continue
+					}
+					for _, v := range eng.ResolveFromCut(r.(*ssa.Return).Results[0], iff, goOn) {
+						if !eng.MentionsCall(v, "filer.Entry).Name", "util.FullPath).Name") {
+							okCur = false
+						}
+					}
+				}
+			}
+			c.Ob("LIMIT-filter", eng.FuncName(fn)+" cursor-at-limit", okCur && nInner == 1, cbs[0].Pos(), "when delivery stops at the limit inside a store batch, the returned cursor is the last delivered name, not the batch's last name")
+		}
+	}
+	c.Expect("LIMIT-filter", 2)
 }
